@@ -1343,6 +1343,74 @@ RULE = ('differential histories of 10-40 calls (valid and malformed streams; max
         'op, args, length before) or distinct schedule.')
 
 
+def bounded_concurrent(ctx, res, nrandom):
+    """A FULL bounded deque under concurrent clients: append / appendleft discard from the other end in the SAME atomic step,
+    so every run must be explainable by executing the calls one at a time (collections.deque(maxlen=m) semantics) in an
+    order that respects real-time precedence.  Uses the schedule driver and the linearizability search of C05."""
+    import concdrv
+    from props import c05
+    st = {'runs': 0, 'by_maxlen': {}, 'overflow': 0}
+    seen = set()
+
+    def one(programs, setup, maxlen, schedule, mode, label):
+        settings = {'disk_min_file_size': 8, 'maxlen': maxlen}
+        r = concdrv.run_program(ctx, programs, schedule, mode=mode, settings=settings, setup=setup, kind='deque', max_steps=6000)
+        st['runs'] += 1
+        st['by_maxlen'][str(maxlen)] = st['by_maxlen'].get(str(maxlen), 0) + 1
+        if r['overflow']:
+            st['overflow'] += 1
+        init = c05.RefDeque(maxlen=maxlen)
+        for c_ in setup:
+            init.apply(c_)
+        viol = c05.check_run(r, programs, setup, 'deque', None, init=init)
+        res.count(['bounded-conc', programs, setup, maxlen, r['schedule_used'], mode], nontrivial=True)
+        for sig, desc in viol[:2]:
+            sig = 'deque_bounded_' + sig
+            if sig not in seen:
+                seen.add(sig)
+                res.violations.append(fw.Violation(sig, 'bounded deque (maxlen %d) under concurrent clients: %s [%s]' % (maxlen, desc, label),
+                                                   {'check': 'deque_bounded_conc', 'programs': programs, 'setup': setup, 'maxlen': maxlen,
+                                                    'schedule': r['schedule_used'], 'mode': mode}))
+        shutil.rmtree(r['dir'], ignore_errors=True)
+        return viol
+    big = 'BIG' + 'x' * 20
+    # systematic: a producer appending to a full deque against one consumer call, every placement of the consumer inside the producer's call
+    for maxlen in (1, 2, 3):
+        setup = [{'op': 'append', 'value': 'old%d' % i if i else big} for i in range(maxlen)]
+        for padd, ppop in (('append', 'popleft'), ('appendleft', 'pop'), ('append', 'pop'), ('appendleft', 'popleft')):
+            programs = [[{'op': padd, 'value': 'new'}, {'op': 'len'}], [{'op': ppop}, {'op': 'len'}]]
+            seqs = concdrv.solo_events(ctx, programs, settings={'disk_min_file_size': 8, 'maxlen': maxlen}, setup=setup, kind='deque')
+            for i in range(0, len(seqs[0]) + 1):
+                one(programs, setup, maxlen, [0] * i + [1] * 200 + [0] * 200, 'own', 'systematic:%s/%s:%d' % (padd, ppop, i))
+                if seen:
+                    break
+    for k in range(nrandom):
+        rng = ctx.rng
+        maxlen = rng.choice([1, 2, 2, 3])
+        setup = [{'op': 'append', 'value': rng.choice([k * 10 + i, big + str(i)])} for i in range(rng.choice([maxlen, maxlen, max(0, maxlen - 1)]))]
+        n = rng.choice([2, 2, 3])
+        programs = []
+        for c_ in range(n):
+            prog = []
+            for j in range(rng.choice([1, 2, 2, 3])):
+                op = rng.choice(['append', 'append', 'appendleft', 'popleft', 'pop', 'len', 'popleft'])
+                call = {'op': op}
+                if op in ('append', 'appendleft'):
+                    call['value'] = 'v%d.%d.%d' % (k, c_, j) if rng.random() < 0.6 else big + '%d.%d.%d' % (k, c_, j)
+                prog.append(call)
+            programs.append(prog)
+        total = [14 * len(p) + 4 for p in programs]
+        schedule = []
+        left = list(total)
+        while any(left):
+            c_ = rng.choice([i for i, x in enumerate(left) if x])
+            x = min(left[c_], rng.randrange(1, 6))
+            schedule += [c_] * x
+            left[c_] -= x
+        one(programs, setup, maxlen, schedule, rng.choice(['own', 'shared']), 'random:%d' % k)
+    res.extra['bounded_deque_concurrency'] = st
+
+
 def run(ctx):
     res = fw.Result()
     res.rule = RULE
@@ -1352,6 +1420,7 @@ def run(ctx):
     publish_stats(res, stats)
     correspondence(ctx, res, histories, 7000 if ctx.quick else 100000)
     concurrent(ctx, res, 40 if ctx.quick else 400)
+    bounded_concurrent(ctx, res, 120 if ctx.quick else 1500)
     return res
 
 
@@ -1361,6 +1430,7 @@ def search(ctx, broken):
     histories = []
     sequential(ctx, res, 750, stats, histories, first_id=100000)
     concurrent(ctx, res, 120)
+    bounded_concurrent(ctx, res, 400)
     return res
 
 
